@@ -54,6 +54,8 @@ type hdef struct {
 	In    string
 	Out   string
 	Multi bool // the handler returns two outputs (path segments name#a and name#b)
+	Bare  bool // outputs are built as struct literals (no constructor, nil metadata): lineage travels in UUID and payload only
+	Ctx   bool // the handler honours its message context (fails when it is already done)
 }
 
 type pipeline struct {
@@ -73,7 +75,7 @@ func (p pipeline) canon() string {
 	for _, st := range p.Stages {
 		b.WriteString("[")
 		for _, h := range st {
-			fmt.Fprintf(&b, "%s:%s>%s%s ", h.Name, h.In, h.Out, map[bool]string{true: "x2", false: ""}[h.Multi])
+			fmt.Fprintf(&b, "%s:%s>%s%s%s%s ", h.Name, h.In, h.Out, map[bool]string{true: "x2", false: ""}[h.Multi], map[bool]string{true: "bare", false: ""}[h.Bare], map[bool]string{true: "ctx", false: ""}[h.Ctx])
 		}
 		b.WriteString("]")
 	}
@@ -111,6 +113,12 @@ func genPipeline(t *rapid.T) pipeline {
 	if rapid.IntRange(0, 2).Draw(t, "multiOutputHandler") == 0 {
 		j := rapid.IntRange(0, n-1).Draw(t, "multiOutputStage")
 		p.Stages[j][0].Multi = true
+	}
+	for si := range p.Stages {
+		for hi := range p.Stages[si] {
+			p.Stages[si][hi].Bare = rapid.IntRange(0, 3).Draw(t, "structLiteralOutputs") == 0
+			p.Stages[si][hi].Ctx = rapid.IntRange(0, 2).Draw(t, "contextAwareHandler") == 0
+		}
 	}
 	p.Buffer = rapid.IntRange(0, 3).Draw(t, "buffer")
 	p.Blocking = rapid.IntRange(0, 2).Draw(t, "blocking") == 0
@@ -153,6 +161,7 @@ type faultyPub struct {
 
 type world struct {
 	mu       sync.Mutex
+	byOut    map[*message.Message]*invocation // output object -> invocation that produced it
 	invs     []*invocation
 	hCalls   map[string]int
 	pCalls   map[string]int
@@ -182,11 +191,7 @@ func (p *faultyPub) Publish(topic string, msgs ...*message.Message) error {
 	call := w.pCalls[p.handler]
 	var inv *invocation
 	if len(msgs) > 0 {
-		var id int
-		fmt.Sscanf(msgs[0].Metadata.Get("inv"), "%d", &id)
-		if id > 0 && id <= len(w.invs) {
-			inv = w.invs[id-1]
-		}
+		inv = w.byOut[msgs[0]]
 	}
 	kind, has := w.faultFor(p.handler, []int{fPubErrBefore, fPubPanic, fPubErrAfter}, call)
 	if inv != nil {
@@ -230,7 +235,7 @@ func run(p pipeline) (viol []string, nontrivial bool) {
 	ctl := lib.Install()
 	defer ctl.Uninstall()
 	ctl.Noise(p.Noise)
-	w := &world{hCalls: map[string]int{}, pCalls: map[string]int{}, faults: p.Faults}
+	w := &world{hCalls: map[string]int{}, pCalls: map[string]int{}, faults: p.Faults, byOut: map[*message.Message]*invocation{}}
 	cfg := gochannel.Config{OutputChannelBuffer: int64(p.Buffer), BlockPublishUntilSubscriberAck: p.Blocking}
 	gcs := map[string]*gochannel.GoChannel{}
 	shared := gochannel.NewGoChannel(cfg, watermill.NopLogger{})
@@ -255,7 +260,7 @@ func run(p pipeline) (viol []string, nontrivial bool) {
 				w.mu.Lock()
 				w.hCalls[h.Name]++
 				call := w.hCalls[h.Name]
-				inv := &invocation{id: len(w.invs) + 1, handler: h.Name, lineage: m.Metadata.Get("lineage"), consumed: m}
+				inv := &invocation{id: len(w.invs) + 1, handler: h.Name, lineage: m.UUID, consumed: m}
 				w.invs = append(w.invs, inv)
 				kind, has := w.faultFor(h.Name, []int{fHandlerErr, fHandlerPanic}, call)
 				if has {
@@ -268,19 +273,31 @@ func run(p pipeline) (viol []string, nontrivial bool) {
 					}
 					panic("injected handler panic")
 				}
+				if h.Ctx && m.Context().Err() != nil {
+					return nil, m.Context().Err()
+				}
+				// handlers and middlewares write metadata of the consumed message (poison queue, delay, requeuer do)
+				m.Metadata.Set("seen-by", h.Name)
 				segs := []string{h.Name}
 				if h.Multi {
 					segs = []string{h.Name + "#a", h.Name + "#b"}
 				}
 				var outs []*message.Message
 				for _, seg := range segs {
-					out := message.NewMessage(m.UUID, append(append([]byte(nil), m.Payload...), []byte("|"+seg)...))
-					out.Metadata.Set("lineage", m.Metadata.Get("lineage"))
-					out.Metadata.Set("path", m.Metadata.Get("path")+"/"+seg)
-					out.Metadata.Set("inv", fmt.Sprint(inv.id))
+					payload := append(append([]byte(nil), m.Payload...), []byte("/"+seg)...)
+					var out *message.Message
+					if h.Bare {
+						out = &message.Message{UUID: m.UUID, Payload: payload}
+					} else {
+						out = message.NewMessage(m.UUID, payload)
+						out.Metadata.Set("produced-by", h.Name)
+					}
 					outs = append(outs, out)
 				}
 				w.mu.Lock()
+				for _, o := range outs {
+					w.byOut[o] = inv
+				}
 				inv.handlerOK = true
 				w.mu.Unlock()
 				return outs, nil
@@ -299,7 +316,8 @@ func run(p pipeline) (viol []string, nontrivial bool) {
 	go func() {
 		for m := range sinkCh {
 			amu.Lock()
-			arrivals = append(arrivals, arrival{m.Metadata.Get("lineage"), m.Metadata.Get("path"), string(m.Payload)})
+			path := strings.TrimPrefix(string(m.Payload), m.UUID)
+			arrivals = append(arrivals, arrival{m.UUID, path, string(m.Payload)})
 			amu.Unlock()
 			m.Ack()
 		}
@@ -335,7 +353,6 @@ func run(p pipeline) (viol []string, nontrivial bool) {
 	for i, topic := range p.Msgs {
 		id := fmt.Sprintf("src%d", i)
 		m := message.NewMessage(id, []byte(id))
-		m.Metadata.Set("lineage", id)
 		done := make(chan error, 1)
 		go func() { done <- gcFor(topic).Publish(topic, m) }()
 		select {
@@ -427,7 +444,7 @@ func run(p pipeline) (viol []string, nontrivial bool) {
 		if !okPath {
 			bad("invention: %s arrived via path %q which the pipeline does not have", a.lineage, a.path)
 		}
-		if want := a.lineage + strings.ReplaceAll(a.path, "/", "|"); a.payload != want {
+		if want := a.lineage + a.path; a.payload != want {
 			bad("invention: %s arrived with payload %q, expected transform is %q", a.lineage, a.payload, want)
 		}
 		arrived[a.lineage] = true
